@@ -72,6 +72,44 @@ func collectLegit(f failer, cfg world.Cfg, dir string, raw []byte) (*legit, []*c
 	if err != nil {
 		failf(f, "the legitimate tape does not index: %v", err)
 	}
+	// the same tape read by someone who trusts another writer's key: after the owner's reading
+	// above, in the same process, nothing of it may be accepted
+	if len(hs) > 0 {
+		d2 := filepath.Join(dir, "otherkey")
+		_ = os.MkdirAll(filepath.Join(d2, "drv"), 0700)
+		drv2 := filepath.Join(d2, "drv", "drive.tar")
+		_ = os.WriteFile(drv2, raw, 0600)
+		var w2 *world.World
+		var err2 error
+		checkObs(f, hist.Call("construct other-key reader", func() {
+			w2, err2 = world.New(cfg, world.Opts{Dir: d2, Drive: drv2, StrangerSig: true, NoInit: true})
+		}), "construct")
+		if err2 != nil {
+			failf(f, "cannot construct the other-key reader: %v", err2)
+		}
+		accepted := 0
+		var ierr error
+		checkObs(f, hist.Call("index with another writer's public key", func() {
+			ierr = w2.Reindex(true, func(*config.Header) { accepted++ })
+		}), "index with another key")
+		rows, _ := observe.IndexDump(w2.DB)
+		if ierr == nil || accepted > 0 || len(rows) > 0 {
+			w2.Close()
+			failf(f, "a reader that verifies with another writer's public key accepted the tape: err=%v, %d headers accepted, %d rows", ierr, accepted, len(rows))
+		}
+		for _, h := range hs {
+			if h.Typeflag != int64(tar.TypeReg) {
+				continue
+			}
+			if data, err := fetchAt(f, w2, h.Record, h.Block); err == nil {
+				w2.Close()
+				failf(f, "Fetch at (%d,%d) verified with another writer's public key (%d bytes)", h.Record, h.Block, len(data))
+			}
+			live.S.AddInner(1)
+		}
+		w2.Close()
+		live.S.Class("other-key-reader-judged")
+	}
 	for _, h := range hs {
 		k := headerKey(h)
 		lg.keys[k] = true
